@@ -149,7 +149,7 @@ def applyMuts (g : Nat → D) (ms : List (Nat × D)) : Nat → D := ms.foldl (fu
 theorem update_from_append_spec (g : Nat → D) (n i : Nat) (hlt : i < n) (hn : n + 1 < 2 ^ 63) :
     updateFromAppend H (authPathOf H g n i) i n (g n) (peaks H n g)
       = some (authPathOf H g (n + 1) i, decide (authPathOf H g (n + 1) i ≠ authPathOf H g n i)) :=
-  updateFromAppend_spec H g n i hlt hn
+  UpdAppend.updateFromAppend_spec H g n i hlt hn
 /-- non-vacuity: 3 leaves `1, 2, 3` under the toy hash `a + 2 b`, peaks `[5, 3]`; appending `4` merges everything, the
     proof `[2]` of leaf 0 becomes `[2, 11]` -/
 example : updateFromAppend (fun a b : Nat => a + 2 * b) [2] 0 3 4 [5, 3] = some ([2, 11], true) := by decide +kernel
@@ -165,7 +165,7 @@ theorem batch_update_from_append_spec (g : Nat → D) (n : Nat) (lis : List Nat)
     (hn : n + 1 < 2 ^ 63) :
     batchUpdateFromAppend H (lis.map (authPathOf H g n)) lis n (g n) (peaks H n g)
       = some (lis.map (authPathOf H g (n + 1)), changedSlots H g g n (n + 1) lis) :=
-  batchUpdateFromAppend_spec H g n lis hall hn
+  UpdAppend.batchUpdateFromAppend_spec H g n lis hall hn
 /-- non-vacuity: 7 leaves `1 … 7` under the toy hash `a + 2 b` (peaks `[27, 17, 7]`), appending `8` merges all three
     trees; the proofs of the leaves `6, 0, 4` (in this order) are extended by 3, 1, 2 digests and all slots are reported -/
 example : batchUpdateFromAppend (fun a b : Nat => a + 2 * b) [[], [2, 11], [6]] [6, 0, 4] 7 8 [27, 17, 7]
